@@ -2,7 +2,8 @@ import AsynqModel.Lib.Asyncio
 import AsynqModel.Proofs.Asyncio
 import AsynqModel.Proofs.AsyncioSem
 import AsynqModel.Proofs.AsyncioLock
-import AsynqModel.Proofs.AsyncioStrict
+import AsynqModel.Proofs.AsyncioLive
+import AsynqModel.Proofs.AsyncioCanon
 /-! helper lemmas for C15: `_gather` spelled out, shapes, and the observer `spec` on the model's own observations -/
 namespace AsynqModel.Asyncio
 open AsynqModel.Core (Val)
@@ -82,6 +83,7 @@ theorem resolveA_shape : ∀ (y : Ys) (s : St) (v : Val), (resolveA y s).1 = .ok
     cases hm : s.mode
     · simp only [hm, Bool.false_eq_true, if_false] at h; simp only [shapeOk]; exact resolveA_shape y s v h
     · simp [hm] at h
+  | .ofut b n, s, v, h => by cases b <;> simp [resolveA] at h; subst h; simp [shapeOk]
   | .tup l, s, v, h => by
     simp only [resolveA] at h
     rcases hg : (gatherA l s).1 with vs | e | w <;> simp [hg, OutL.wrap] at h
@@ -290,13 +292,17 @@ theorem topA_good (c : Call) (p : Prog) :
   have := ((callPre_ext c {}).trans hg).all rfl
   simpa using this
 
-/-- every synchronous call attempted by an asyncio run is refused with the RuntimeError - for programs that make no plain
-    synchronous call of a @deduplicate() function -/
-theorem topA_strict (c : Call) (p : Prog) (hg : p.noDedupSync = true) :
-    (topA c p {}).2.log.all syncRefusedOk = true := by
-  have hx := bodyA_strict p c.kind.isGen c.label [] none 0 (callPre c {}) (by simp) hg
+/-- every synchronous call attempted by an asyncio run is refused with the RuntimeError "asyncio mode does not support
+    synchronous calls", and no `sync_fn` is entered (ALL programs) -/
+theorem topA_strict (c : Call) (p : Prog) : (topA c p {}).2.log.all syncRefusedOk = true :=
+  all_imp (topA_good c p).2 (by intro e he; simp [evOkA] at he; exact he.1.2)
+
+/-- every event of an asyncio run belongs to the root or to a task of `Prog.live` -/
+theorem topA_live (c : Call) (p : Prog) : (topA c p {}).2.log.all (inL (c.label :: p.live)) = true := by
+  have hx := bodyA_live (c.label :: p.live) p c.kind.isGen c.label [] none 0 (callPre c {}) (by simp) (by simp)
+    (fun x hx => by simp [hx])
   rw [topA_eq]
-  have := ((callPre_strict c {}).trans hx).all rfl
+  have := ((callPre_live (c.label :: p.live) c {} (by simp)).trans hx).all rfl
   simpa using this
 
 theorem topA_noEsc (c : Call) (p : Prog) : isEsc (topA c p {}).1 = false := by
@@ -389,9 +395,9 @@ theorem spec_intro (o1 o2 o3 o4 o5 : Obs) (c1 : o1.conv = .call) (c2 : o2.conv =
     `fn.asynq(args).value()`, `await fn.asyncio(args)`, `asyncio.run(fn.asyncio(args))`, as a task beside a watcher - are
     accepted by the observer `spec`, the same Boolean function the check evaluates on the observations of the real
     implementation -/
-theorem spec_holds (c : Call) (p : Prog) (hp : p.plainY = true) (hx : p.safe = true) (hg : p.noDedupSync = true) :
+theorem spec_holds (c : Call) (p : Prog) (hp : p.plainY = true) (hx : p.safe = true) :
     spec (observe c p) = true := by
-  have hAs := topA_strict c p hg
+  have hAs := topA_strict c p
   obtain ⟨hRm, hRl⟩ := topCall_good c p
   obtain ⟨hAm, hAl⟩ := topA_good c p
   obtain ⟨hd1, _⟩ := top_deliveries c p hp hx
@@ -419,5 +425,37 @@ theorem spec_holds (c : Call) (p : Prog) (hp : p.plainY = true) (hx : p.safe = t
     specObs_ok_A _ _ _ rfl rfl rfl (canary_off _ rfl) (by simpa [observe1] using hAl) (by simpa [observe1] using hAs) hAe (topA_root c p _ rfl rfl) hd1
   exact spec_intro (observe1 .call c p) (observe1 .value c p) (observe1 .aio c p) (observe1 .aiorun c p)
     (observe1 .aiotask c p) rfl rfl rfl rfl rfl e1 e2 e3 e4 e5
+
+/-! ### the program-aware clauses on the model's own observations -/
+
+theorem sameView_refl (a : Obs) : sameView a a = true := by simp [sameView]
+
+theorem specObsP_self (c : Call) (p : Prog) (ob : Obs)
+    (hl : ob.conv.isAio = true → ob.log.all (inL (c.label :: p.live)) = true) :
+    specObsPL (c.label :: p.live) ob ob = .ok () := by
+  unfold specObsPL specObsC
+  cases hc : ob.conv.isAio
+  · simp
+  · have h1 : (canonE ob.log).all (fun e => (c.label :: p.live).contains e.label) = true := by
+      have := hl hc
+      rw [all_canonE]; exact this
+    rw [h1]
+    simp [sameView_refl]
+
+/-- **C15 as a whole, for a case**: the model's observations pass the program-aware observer too -/
+theorem specP_holds (c : Call) (p : Prog) (hp : p.plainY = true) (hx : p.safe = true) :
+    specP c p (observe c p) = true := by
+  have hs := spec_holds c p hp hx
+  have hl := topA_live c p
+  have hl' : (topA c p {}).2.log.reverse.all (inL (c.label :: p.live)) = true := by simpa using hl
+  have e1 := specObsP_self c p (observe1 .call c p) (by intro h; cases h)
+  have e2 := specObsP_self c p (observe1 .value c p) (by intro h; cases h)
+  have e3 := specObsP_self c p (observe1 .aio c p) (fun _ => hl')
+  have e4 := specObsP_self c p (observe1 .aiorun c p) (fun _ => hl')
+  have e5 := specObsP_self c p (observe1 .aiotask c p) (fun _ => hl')
+  have hc : specClause (observe c p) = "ok" := by simpa [spec] using hs
+  unfold specP specClauseP specClausePWith
+  rw [hc]
+  simp [observe, allConvs, specListP, e1, e2, e3, e4, e5]
 
 end AsynqModel.Asyncio
